@@ -702,20 +702,6 @@ class Oracle:
         self.check(site, kind, v, inputs, multi)
         return v
 
-    F32 = 'oracle:float32-operand:r2q-single-precision:invalid-value'
-
-    def float32_invalid(self, site, kind, elems, operand_arrays, replay):
-        """base.r2q of a float32-typed rotation matrix works in single precision and returns a quaternion whose norm is off by
-        ~1e-8; interp (and UnitQuaternion(SO3)) use it unnormalised, so a value that goes through r2q of a float32 operand is
-        valid only to ~1e-7.  Reported under one root-cause key: invalid value, residual < 1e-5, some operand array is float32."""
-        worst = max([self.check_value(kind, e)[0] for e in elems] + [0.0])
-        if not (TOL < worst < 1e-5) or not any(np.asarray(a).dtype == np.float32 for a in operand_arrays):
-            return False
-        self.ctx.count('oracle:' + site)
-        self.ctx.fail(self.F32, f"{site}: a float32-typed (exactly valid) operand goes through r2q in single precision; the returned value has validity "
-                      f"residual {worst:.3g}", dict(replay, site=site, residual=worst, operands=[np.asarray(a).tolist() for a in operand_arrays]))
-        return True
-
     def antipodal_invalid(self, site, kind, elems, pair, inputs):
         """3-D interpolation between R0 and R1 goes through q0 = r2q(R0), q1 = r2q(R1) and slerp(q0, q1, s) WITHOUT shortest:
         when both are (nearly) half-turns the two quaternions can come out with opposite signs (q0.q1 ~ -1), slerp then divides
@@ -794,19 +780,16 @@ class Oracle:
             self.icall('SE3.interp:int', 'T3', 'SE3', lambda: interp_checked(SE3.Tx(ti[0]) * SE3(Tn, check=False), s).data, [(Tn, 'T3')], np.r_[Tn.flatten(), ti, s], multi=True)
             e2i = [int(v) for v in rng.integers(-9, 10, size=2)]
             Yi = SE2(e2i[0], e2i[1])
-            # ---- float32-typed (exactly valid, axis-aligned) operands through the r2q-based routes
-            X32 = self.leaf_exact(SO3)
-            if X32.A.dtype == np.float32:
-                for site32, kind32, fn32 in (('SO3.interp:float32', 'R3', lambda: interp_checked(X32, s).data),
-                                             ('SO3.interp:start:float32', 'R3', lambda: interp_checked(SO3(T0[:3, :3], check=False), s, X32).data),
-                                             ('UnitQuaternion(SO3):float32', 'Q', lambda: UnitQuaternion(X32).data)):
-                    try:
-                        v32 = fn32()
-                    except Exception as ex:
-                        self.report_raise('SO3', 'interp', ex, kind32, [(X32.A, 'R3')], {'site': site32, 'inputs_hex': hexl(np.r_[X32.A.flatten(), s])})
-                        continue
-                    if not self.float32_invalid(site32, kind32, v32, [X32.A], {'s': s}):
-                        self.check(site32, kind32, v32, np.r_[X32.A.flatten(), s], multi=True)
+            # ---- informational only (no finding): float32-typed operands.  The property's 1e-9 is below single precision, so
+            # float32 values are outside its domain; the worst residual of the r2q-based routes on them is recorded in the evidence
+            if i % 10 == 0:
+                X32 = SO3(self.leaf_exact(SO3).A.astype(np.float32), check=False)
+                try:
+                    r32 = max(self.check_value('R3', e)[0] for e in interp_checked(X32, s).data)
+                    r32 = max(r32, self.check_value('Q', UnitQuaternion(X32).data[0])[0])
+                    self.ctx.stats['info:float32-operand:worst-residual'] = max(self.ctx.stats.get('info:float32-operand:worst-residual', 0.0), r32)
+                except Exception:
+                    self.ctx.count('info:float32-operand:raises')
             # ---- 3-D rotations (SO(3) case of trinterp, SO3.interp)
             R0, R1, Rn = T0[:3, :3], T1[:3, :3], Tn[:3, :3]
             ops3 = [(R0, 'R3'), (R1, 'R3')]
@@ -866,8 +849,6 @@ class Oracle:
             # the trees are built over VALID leaves: an invalid interpolated value is reported here, under the interpolation keys
             site = f'{cls.__name__}.interp:leaf'
             pair = (x.A[:3, :3], y.A[:3, :3]) if cls in (SO3, SE3) else None
-            if self.float32_invalid(site, kind, z.data, [x.A, y.A], {'s': s}):
-                return x
             if pair is not None and self.antipodal_invalid(site, kind, z.data, pair, np.r_[x.A.flatten(), y.A.flatten(), s]):
                 return x
             rz = max(self.check_value(kind, e)[0] for e in z.data)
@@ -881,10 +862,10 @@ class Oracle:
         return x
 
     def leaf_exact(self, cls):
-        """a member whose array has INTEGER or float32 dtype: axis-aligned rotations (signed permutation matrices, det +1),
+        """a member whose array has INTEGER dtype: axis-aligned rotations (signed permutation matrices, det +1),
         integer translations; exactly representable, so a valid member to 0"""
         rng = self.rng
-        dt = [np.int64, np.int32, np.float32][int(rng.integers(3))]
+        dt = [np.int64, np.int32][int(rng.integers(2))]     # reduced-precision FLOAT dtypes are outside the property's domain (1e-9 is below single precision)
         if cls in (SO3, SE3):
             while True:
                 P = np.eye(3)[rng.permutation(3)] * rng.choice([-1, 1], size=3)[:, None]
@@ -966,7 +947,7 @@ class Oracle:
             def inplace(x, y):
                 # the augmented assignment itself (X *= Y, X /= Y): whatever object it leaves in X is the value; the two
                 # operand objects must still be members afterwards (an in-place shortcut that writes into a shared or
-                # integer / float32 array shows up in one of the three)
+                # integer-typed array shows up in one of the three)
                 x0, y0 = x, y
                 kind_ = {SO3: 'R3', SE3: 'T3', SO2: 'R2', SE2: 'T2'}.get(cls, 'Q')
                 ok0 = {nm: max(self.check_value(kind_, e)[0] for e in o.data) <= TOL for nm, o in (('left', x0), ('right', y0))}
@@ -1017,13 +998,11 @@ class Oracle:
         kind_i = {SO3: 'R3', SE3: 'T3', SO2: 'R2', SE2: 'T2'}.get(cls, 'Q')
 
         def interp_node(a):
-            r = a.interp(s) if cls is UnitQuaternion else interp_checked(a, s)
-            if self.float32_invalid(f'{cls.__name__}.interp:node', kind_i, r.data, list(a.data), {'s': s}):
-                return a      # reported under its root cause; the tree goes on with the operand
-            if any(np.asarray(e).dtype == np.float32 for e in a.data) and max(self.check_value(kind_i, e)[0] for e in r.data) > 1e-12:
-                # same root cause below the tolerance (valid to 1e-9, but carrying 1e-12..1e-9 of single-precision drift): like an
-                # interpolated leaf that is not clean, it is not handed on, so that later operators are not blamed for it
+            if cls is UnitQuaternion and all(np.asarray(e, dtype=float)[0] <= -1 + 4e-16 for e in a.data):
+                # from the identity to EXACTLY minus the identity with shortest=False: no unique great circle, the interpolation
+                # is undefined (the code raises ValueError at s = 0.5: no value, hence no invalid member); not part of the trees
                 return a
+            r = a.interp(s) if cls is UnitQuaternion else interp_checked(a, s)
             return r
         return f"interp({da}, {s.hex()})", guarded('interp', (interp_node, lambda: (fa(),)))
 
